@@ -38,7 +38,9 @@ def values(tier, seed):
             "w/5", "2*x", "", "1.5", "1e-9", "1E-9", "2.5E6", "-7E+3", "1_0", ".5", "5.", "+3", " 3 ", "nan", "inf", "abc def",
             "0x10", str(Decimal("1E-9")), str(Decimal("12E+7")), h.Literal("a+b"), h.Literal("")]
     for p in Prefix:
-        for m in ("1", "1.50", "-0.000123", "12345678901234567890123456789012345678901", "3E+2"):
+        # (1000 / 0.001 / 1: the same values written with neighbouring prefixes - equal numbers, different digits)
+        for m in ("1", "1.50", "-0.000123", "12345678901234567890123456789012345678901", "3E+2", "1000", "0.001",
+                  "2500", "2.50"):
             vals.append(h.Prefixed(number=Decimal(m), prefix=p))
     n = 400 if tier == "thorough" else 40
     for _ in range(n):
@@ -105,7 +107,9 @@ def matches(pv, exp):
         if which == "int64_value":
             return Fraction(pv.prefixed.int64_value) == num
         if which == "string_value":
-            return Fraction(Decimal(pv.prefixed.string_value)) == num
+            # "keep their exact decimal digits": the string is the Decimal's own text, trailing zeros and exponent too
+            return Fraction(Decimal(pv.prefixed.string_value)) == num and \
+                Decimal(pv.prefixed.string_value).as_tuple() == dec.as_tuple()
         if which == "double_value":
             return Fraction(pv.prefixed.double_value) == num
         return False
@@ -130,6 +134,8 @@ def cases(tier, seed):
             yield ("ideal:" + name, k, v)
     for k, v in enumerate(vs):
         yield ("scalar", k, v)
+    for k in range(3):
+        yield ("pulse-like-names", k, None)
 
 
 def check_case(case):
@@ -164,6 +170,31 @@ def check_case(case):
         want = [Fraction(v)] if not isinstance(v, float) else [Fraction(v), Fraction(Decimal(repr(v)))]
         if got not in want:
             return ("scalar.number-value", f"to_scalar({v!r}) == {r!r} (value {got}), expected {want[-1]}", w)
+        return None
+    if kind == "pulse-like-names":
+        # the ideal pulse source's renaming (delay->td, ...) applies to that primitive only: any other instance keeps
+        # its parameter names, whatever they are called
+        names = ["delay", "rise", "fall", "width", "period", "v1", "v2", "td", "w"]
+        m = h.Module(name="PN")
+        m.a = h.Signal()
+        if k == 0:
+            E = h.ExternalModule(name="PEd", port_list=[h.Inout(name="a")], paramtype=dict, desc="", domain="pd")
+            m.e = E(**{n: i + 1 for i, n in enumerate(names)})(a=m.a)
+        elif k == 1:
+            PC = h.paramclass(type("PCls", (), {n: h.Param(dtype=int, desc=n, default=i + 1) for i, n in enumerate(names)}))
+            E = h.ExternalModule(name="PEp", port_list=[h.Inout(name="a")], paramtype=PC, desc="", domain="pd")
+            m.e = E(PC())(a=m.a)
+        else:
+            m.b = h.Signal()
+            m.e = h.PhysicalResistor(w=1 * h.prefix.µ, l=2 * h.prefix.µ)(p=m.a, n=m.b)
+            names = ["w", "l"]
+        try:
+            pkg = h.to_proto(m)
+        except Exception as e:
+            return (f"names.raises.{type(e).__name__}", f"{type(e).__name__}: {str(e)[:120]}", w)
+        got = [p.name for p in pkg.modules[-1].instances[0].parameters]
+        if sorted(n for n in got if n in names) != sorted(names):
+            return ("ext.names", f"parameters {names} exported as {got}", w)
         return None
     if kind == "ext":
         E = h.ExternalModule(name="PE", port_list=[h.Inout(name="a")], paramtype=dict, desc="", domain="pd")
